@@ -57,10 +57,27 @@ var installPauseHooks func(h func(kind, site string, m interface{}))
 
 var thePauser pauser
 
-var installOnce sync.Once
+var installOnce, installGoOnce sync.Once
 
 // resetPools empties the deterministic stand-ins for sync.Pool (set when built over the overlay).
 var resetPools func()
+
+// installGoHooks points the go statements of sso's instrumented packages at a hook (set when built over the overlay).
+var installGoHooks func(h func(site string, f func()))
+
+// lateStart is the world engine's go-statement hook: a goroutine that sso starts begins one virtual millisecond later,
+// i.e. after everything that is runnable at the instant of the go statement has run as far as it can. Without it the new
+// goroutine and its parent run side by side at one virtual instant and the Go runtime, not the seed, decides which of
+// them reaches shared state (a breaker's counters, a cache) first.
+func lateStart(site string, f func()) {
+	go func() {
+		time.Sleep(time.Millisecond)
+		f()
+	}()
+}
+
+// setRandSeed seeds the overlay's stand-in for math/rand's global source with the run's seed.
+var setRandSeed func(uint64)
 
 // PauseAvailable reports whether this binary was built with the statement-level scheduling points.
 func PauseAvailable() bool { return installPauseHooks != nil }
